@@ -916,6 +916,13 @@ impl<S: BitmapSlice + Send + Sync> FileSystem for PassthroughFs<S> {
 
         if self.seal_size.load(Ordering::Relaxed) {
             let st = stat_fd(&*f, None)?;
+            // In append mode pwrite(2) ignores the offset and writes at end of file.
+            let fl = unsafe { libc::fcntl(f.as_raw_fd(), libc::F_GETFL) };
+            let offset = if fl >= 0 && fl & libc::O_APPEND != 0 {
+                st.st_size as u64
+            } else {
+                offset
+            };
             self.seal_size_check(Opcode::Write, st.st_size as u64, offset, size as u64, 0)?;
         }
 
